@@ -447,6 +447,7 @@ func init() {
 		}
 		return setBig(a[0], acc)
 	}
+	intrinsics[B+"String"] = func(e *Exec, a []Value) Value { return VStr{"<big.Int>"} } // messages only
 	intrinsics[B+"SetUint64"] = func(e *Exec, a []Value) Value { return setBig(a[0], toInt(a[1].(VInt).T, false)) }
 	intrinsics[B+"SetInt64"] = func(e *Exec, a []Value) Value { return setBig(a[0], toInt(a[1].(VInt).T, true)) }
 	intrinsics["math/big.NewInt"] = func(e *Exec, a []Value) Value { return newBig(toInt(a[0].(VInt).T, true)) }
